@@ -205,7 +205,9 @@ COMMA_TEXTS = ['0012345', '007', '0000', '1000', '999', '-1234', '100000',
                '12345678901234567890', '0.5', '1000.0001', '-0012.50',
                '$1234', 'abc 1234567 def', 'x1234', '1234.5678.9012',
                '\u0661\u0662\u0663\u0664\u0665', '\uff11\uff12\uff13\uff14',
-               '1234\n', ' 1234', '1234 ', '+1234', '1e20', '12_345']
+               '1234\n', ' 1234', '1234 ', '+1234', '1e20', '12_345',
+               '1234567.', '.', '12.', 'Total: 1234567.', '.5', '1234..5',
+               '1234.5.', '-.5', '1234.0']
 
 
 def run_commas(res, case):
